@@ -217,6 +217,20 @@ namespace _tuple {
 	template<typename Ret, typename Indices, typename... Tuples>
 	struct tuple_concater;
 
+	// Forwards the I-th element of a tuple: elements of lvalue tuples are passed
+	// as lvalues (i.e., they are copied); only elements of rvalue tuples are moved.
+	// Reference elements keep their identity in both cases.
+	template<size_t I, typename Tuple>
+	constexpr decltype(auto) forward_element(std::remove_reference_t<Tuple> &tp) {
+		using element = typename std::tuple_element<I,
+				std::remove_cv_t<std::remove_reference_t<Tuple>>>::type;
+		if constexpr (std::is_lvalue_reference_v<Tuple>) {
+			return (tp.template get<I>());
+		}else{
+			return static_cast<element &&>(tp.template get<I>());
+		}
+	}
+
 	template<typename Ret, size_t... Indices, typename Tuple, typename... Tuples>
 	struct tuple_concater<Ret, std::index_sequence<Indices...>, Tuple, Tuples...> {
 		template<typename... Res>
@@ -225,7 +239,7 @@ namespace _tuple {
 			typedef tuple_concater<Ret, index, Tuples...> next;
 			return next::do_concat(std::forward<Tuples>(tps)...,
 					std::forward<Res>(res)...,
-					std::move(tp.template get<Indices>())...);
+					forward_element<Indices, Tuple>(tp)...);
 		}
 	};
 
